@@ -40,10 +40,10 @@ var (
 
 func (g *Gen) BoolType() *Type { return tBool }
 func (g *Gen) IntType() *Type  { return tInt }
-func SetOf(t *Type) *Type    { return &Type{K: TSet, Elem: t} }
-func SeqOf(t *Type) *Type    { return &Type{K: TSeq, Elem: t} }
-func TupOf(t ...*Type) *Type { return &Type{K: TTup, Elems: t} }
-func FnOf(k, v *Type) *Type  { return &Type{K: TFn, Key: k, Elem: v} }
+func SetOf(t *Type) *Type      { return &Type{K: TSet, Elem: t} }
+func SeqOf(t *Type) *Type      { return &Type{K: TSeq, Elem: t} }
+func TupOf(t ...*Type) *Type   { return &Type{K: TTup, Elems: t} }
+func FnOf(k, v *Type) *Type    { return &Type{K: TFn, Key: k, Elem: v} }
 
 func (t *Type) String() string {
 	switch t.K {
@@ -139,6 +139,9 @@ func (g *Gen) GenType(depth int) *Type {
 }
 
 func (g *Gen) keyType(depth int) *Type {
+	if depth > 0 && g.coin(8, "fnkey") {
+		return FnOf(tInt, tInt)
+	}
 	switch g.pick(8, "keytype") {
 	case 0, 1, 2:
 		return tInt
